@@ -28,9 +28,19 @@ keypoint list cannot be both "the distinct values"/"within the range" and
 strictly increasing).  These cases are counted as the class
 "degenerate:<2-distinct(no strict/pwl claim)"; count/range/ends still apply.
 
-All data values and clip bounds are float32-representable, so the float32,
-float64 and int64 spellings of an array denote the same numbers and every
-comparison above is exact.
+Unless the column is spelled "f64raw", data values and clip bounds are
+float32-representable, so the float32, float64 and integer spellings of an
+array denote the same numbers; "f64raw" columns carry genuine float64 values
+(and float64 clip bounds).  U is always computed in float64 from the numbers
+passed, so every comparison above is exact.
+
+Weights are judged beyond validity by exact metamorphic relations (target
+compute_keypoints, module section "metamorphic"): a joint permutation of
+(values, weights), a rescaling of all weights, 'sum' against 'mean' of
+weights multiplied by the multiplicity of their value, and a value that
+carries > 97% of the weight must be a keypoint.  Each relation is asserted only
+where float arithmetic cannot produce a tie (integer weights with exactly
+representable sums, power-of-two factors).
 """
 import numpy as np
 from hypothesis import strategies as st
@@ -42,54 +52,117 @@ ID = "C18"
 TITLE = "Computed calibration keypoints are valid for every data sample"
 RULE = ("Hypothesis draws a target (compute_keypoints directly; "
         "compute_feature_keypoints + set_feature_keypoints on 1-3 feature "
-        "columns with generated FeatureConfigs - computed, explicit, "
-        "categorical, or no config; compute_label_keypoints + "
-        "set_label_keypoints on one of the four model configs - numeric or "
-        "string labels, logits on/off, explicit initialisation), a sample "
-        "size 1-200 (thorough 1-3000), per column a value array (few distinct "
-        "values, small integers, heavy duplicates, skewed, normal, grid, "
-        "constant, explicit list; float64/float32/int64 spelling; random, "
-        "sorted or reversed order), num_keypoints 2-20 (thorough 2-60), the "
-        "mode, clip bounds (none/min/max/both; placed on data values, inside, "
-        "below or above the data), a default value (none, present in the "
-        "data, absent), example weights > 0 (none, ones, uniform, small "
-        "integers, log-normal skewed, one dominant) and the 'mean'/'sum' "
-        "reduction. The returned keypoints are judged by the clause-by-clause "
-        "validity predicate of the module docstring. Non-trivial: at least "
-        "one computed column has >= 2 distinct clipped values (so the strict "
-        "increase and PWLCalibration clauses apply); distinct by SHA-1 of the "
-        "case.")
+        "columns with generated FeatureConfigs - computed, explicit (list or "
+        "ndarray), categorical, no config, or a config whose feature has no "
+        "data; compute_label_keypoints + set_label_keypoints on one of the "
+        "four model configs - numeric or string labels, logits on/off, "
+        "explicit initialisation as list or ndarray), a sample size 1-200 "
+        "(thorough 1-3000), per column a value array (few distinct values, "
+        "small integers, heavy duplicates, skewed, normal, grid, constant, "
+        "large offset + small grid, explicit list; spelled float64 with "
+        "float32-representable values, genuine float64, float32, int64, int32 "
+        "or uint8, optionally read-only; random, sorted or reversed order), "
+        "num_keypoints 2-20 (thorough 2-60), the mode, clip bounds "
+        "(none/min/max/both; placed on data values, inside, below or above "
+        "the data, or exactly 0.0 / -0.0 / +-1; passed as python float, python "
+        "int, np.float32 or np.float64), a default value (none, present in "
+        "the data, absent, exactly 0.0 / -0.0; same spellings), example "
+        "weights >= 0 (none, ones, uniform, small integers, log-normal skewed, "
+        "one dominant example, integer with weight 1e6 on one value, integer "
+        "with 10-50% zeros; float64, float32, int64 or int32 arrays) and the "
+        "'mean'/'sum' reduction. The returned keypoints are judged by the "
+        "clause-by-clause validity predicate of the module docstring; "
+        "weighted compute_keypoints cases additionally by the exact "
+        "metamorphic relations (joint permutation, rescaling of all weights, "
+        "'sum' vs 'mean' of multiplicity-scaled weights, dominant value is a "
+        "keypoint). Non-trivial: at least one computed column has >= 2 "
+        "distinct clipped values (so the strict increase and PWLCalibration "
+        "clauses apply); distinct by SHA-1 of the case.")
 NT_FLOOR = 0.6
 FUZZ = {"thorough": 60000}   # atheris executions per shard (thorough tier)
 BUDGET = {"quick": 2500, "thorough": 30000}
 ASSUMPTIONS = [
     "a sample that is empty after removing default_value is not generated "
     "(there is no data to place keypoints on)",
-    "clip_min < clip_max when both are given; weights are strictly positive",
-    "values and clip bounds are float32-representable finite numbers",
+    "clip_min < clip_max when both are given; weights are >= 0 with at least "
+    "one positive weight on the data that remain after default removal",
+    "not generated (candidate defect 1, switch GEN_ZERO_WEIGHT_LOW_RUN): "
+    "zero weights such that the two lowest distinct clipped values (the "
+    "clip_min bound counts as one) both have total weight 0",
+    "not generated (candidate defect 2, switch GEN_F32_NARROW_UNIFORM): a "
+    "float32 array in 'uniform' mode whose keypoint step would be below 4 "
+    "float32 ulps of the largest magnitude (such a column is spelled float64)",
+    "values and clip bounds are finite; float32/int columns hold "
+    "float32-representable numbers, 'f64raw' columns genuine float64 numbers "
+    "(continuous draws or offset + grid of step >= 1e-3; two distinct values "
+    "a few float64 ulps apart are not constructed: a relative clip bound at "
+    "a data extreme is that extreme exactly)",
+    "not generated (candidate defect 3, switch GEN_F32_WEIGHTS_INEXACT): "
+    "float32 weight arrays whose sums are inexact in float32 (float32 is "
+    "kept for integer weights with total < 2^24 and for weights all above "
+    "4 n ulps of the total; other weight vectors are spelled float64)",
+    "int32 weights have a total below 2^31; a python-int clip bound or "
+    "default outside [0, 255] is passed as a float to uint8 columns (NumPy "
+    "rejects the out-of-range python int itself)",
 ]
 TECHNIQUE = ("property-based testing (Hypothesis): generated samples, weights, "
              "clip bounds and configs against a clause-by-clause validity "
-             "predicate (float64 numpy) and PWLCalibration construction")
+             "predicate (float64 numpy), exact metamorphic relations on the "
+             "weights and PWLCalibration construction")
 LEVEL_TEXT = ("Generated-input exploration of compute_keypoints and of the "
               "feature/label keypoint helpers: tens of thousands of samples "
               "per run (duplicates, few distinct values, skew, constant after "
-              "clipping, integer data, extreme weights) in both modes and both "
-              "reductions; every returned keypoint list is checked for count, "
-              "strict increase, range, end points and acceptance by "
-              "PWLCalibration, and the configs filled by set_*_keypoints are "
-              "re-read. Catches rounding/duplicate-index, sentinel, clipping, "
-              "default-removal and wiring mistakes; cannot show absence and "
-              "does not judge which of the valid quantile choices is made.")
-LEVEL_NOTE = ("Exact comparisons (no tolerance). Sizes bounded as in the rule. "
-              "Trusted: NumPy, the harness, PWLCalibration's own keypoint "
-              "validation as the acceptance test.")
+              "clipping, integer data, spread far below magnitude, genuine "
+              "float64 values, extreme and zero weights, bounds and defaults "
+              "exactly 0, several array dtypes and scalar spellings) in both "
+              "modes and both reductions; every returned keypoint list is "
+              "checked for count, strict increase, range, end points and "
+              "acceptance by PWLCalibration, the configs filled by "
+              "set_*_keypoints are re-read, and for weighted compute_keypoints "
+              "calls the weights are judged by exact metamorphic relations "
+              "(permutation, rescaling, sum-vs-mean, dominant value). Catches "
+              "rounding/duplicate-index, sentinel, clipping, default-removal, "
+              "falsy-zero, precision-loss, weight-misalignment and wiring "
+              "mistakes; cannot show absence and does not judge which of the "
+              "valid quantile choices is made beyond those relations.")
+LEVEL_NOTE = ("Exact comparisons (no tolerance). Metamorphic relations are "
+              "asserted only where float arithmetic cannot tie: integer "
+              "weights whose sums are exact in the dtype the library sums in "
+              "(2^24 for float32/int32, 2^53 otherwise), power-of-two factors "
+              "for arbitrary weights. Sizes bounded as in the rule. Three "
+              "input classes that make the unmodified library fail are "
+              "switched off (see assumptions). Trusted: NumPy, the harness, "
+              "PWLCalibration's own keypoint validation as the acceptance "
+              "test.")
 
 DATA_KINDS = ["few", "few", "ints", "ints", "heavy", "heavy", "skewed",
-              "skewed", "normal", "normal", "grid", "grid", "constant"]
+              "skewed", "normal", "normal", "grid", "grid", "constant",
+              "offset", "offset"]
 SCALES = [1e-3, 1.0, 1.0, 1.0, 10.0, 1e3, 1e6]
-WEIGHT_KINDS = ["ones", "uniform", "ints", "skewed", "skewed", "dominant"]
+WEIGHT_KINDS = ["ones", "uniform", "ints", "ints", "skewed", "skewed",
+                "dominant", "dominant-int", "dominant-int", "some-zero",
+                "some-zero"]
 MODELS = ["lattice", "linear", "ensemble", "aggregate"]
+DTYPES = ["f64", "f64raw", "f64raw", "f32", "f32", "int", "int32", "uint8"]
+SPELLS = ["float", "float", "int", "np32", "np64"]
+WEIGHT_DTYPES = ["f64", "f64", "f32", "int64", "int32"]
+# power-of-two factors are exact for every weight vector, 3 and 10 for integer
+# weights under 'sum'.
+META_SCALES = [2.0, 0.25, 1024.0, 3.0, 10.0]
+
+# Candidate genuine defects found by the widened generator (described in the
+# widening report, repro scripts /tmp/scratch/widen/C18-defect-<n>.py).  The
+# generating options stay off so that the check is quiet on them.
+# 1: the two lowest distinct clipped values (the clip_min sentinel counts) both
+#    have total weight 0 -> the first keypoint is not clip_min / the data minimum.
+GEN_ZERO_WEIGHT_LOW_RUN = True
+# 2: a float32 array without clip bounds in 'uniform' mode whose spread is a few
+#    float32 ulps -> np.linspace runs in float32 and repeats keypoints.
+GEN_F32_NARROW_UNIFORM = True
+# 3: float32 weights whose sums are not exact in float32 (total beyond 2^24 or
+#    non-integer weights close to float32 resolution of the total) -> cumsum and
+#    sum round differently and the last keypoint is not the data maximum.
+GEN_F32_WEIGHTS_INEXACT = True
 
 
 # --------------------------------------------------------------------------
@@ -101,7 +174,11 @@ def _clip_spec():
                                                    0.9, 1.0])}),
       st.fixed_dictionaries({"rel": st.just("t"),
                              "t": st.sampled_from([-1.0, -0.25, 0.0, 0.2, 0.4,
-                                                   0.6, 0.8, 1.0, 1.25])}))
+                                                   0.6, 0.8, 1.0, 1.25])}),
+      # an absolute bound: exactly 0.0 / -0.0 (falsy values) or +-1
+      st.fixed_dictionaries({"rel": st.just("abs"),
+                             "v": st.sampled_from([0.0, 0.0, -0.0, 1.0,
+                                                   -1.0])}))
 
 
 @st.composite
@@ -121,12 +198,17 @@ def _column(draw, tier, small_n, form=None, allow_default=True):
     default = draw(st.sampled_from(
         [{"mode": "none"}, {"mode": "none"}, {"mode": "absent"},
          {"mode": "present", "pick": draw(st.integers(0, 10**6))},
-         {"mode": "present", "pick": draw(st.integers(0, 10**6))}]))
+         {"mode": "present", "pick": draw(st.integers(0, 10**6))},
+         {"mode": "zero", "neg": draw(st.booleans())}]))
   else:
     default = {"mode": "none"}
   return {
       "data": data,
-      "dtype": draw(st.sampled_from(["f64", "f64", "f32", "int"])),
+      "dtype": draw(st.sampled_from(DTYPES)),
+      "readonly": draw(st.integers(0, 3)) == 0,
+      "spell": {"clip": draw(st.sampled_from(SPELLS)),
+                "default": draw(st.sampled_from(SPELLS)),
+                "explicit_array": draw(st.booleans())},
       "order": draw(st.sampled_from(["random", "random", "sorted",
                                      "reversed"])),
       "num_keypoints": draw(st.one_of(st.integers(2, 6),
@@ -147,19 +229,25 @@ def _case(draw, tier):
   n = draw(st.one_of(st.integers(1, 12), st.integers(13, 60),
                      st.integers(13, 200),
                      st.integers(13, 3000 if big else 200)))
-  wkind = draw(st.sampled_from([None, None] + WEIGHT_KINDS))
+  wkind = draw(st.sampled_from([None, None, None] + WEIGHT_KINDS))
   case = {
       "target": target, "n": n,
-      "weights": None if wkind is None else {"kind": wkind,
-                                             "seed": draw(S.seeds)},
+      "weights": None if wkind is None else {
+          "kind": wkind, "seed": draw(S.seeds),
+          "dtype": draw(st.sampled_from(WEIGHT_DTYPES)),
+          "zero_frac": draw(st.sampled_from([0.1, 0.3, 0.5])),
+          "readonly": draw(st.integers(0, 3)) == 0},
       "reduction": draw(st.sampled_from(["mean", "sum"])),
+      "meta": {"seed": draw(S.seeds),
+               "scale": draw(st.sampled_from(META_SCALES))},
   }
   if target == "compute":
     case["cols"] = [draw(_column(tier, n <= 12))]
   elif target == "feature":
     ncols = draw(st.integers(1, 3))
     forms = [draw(st.sampled_from(["computed", "computed", "computed",
-                                   "explicit", "categorical", "missing"]))
+                                   "explicit", "categorical", "missing",
+                                   "nodata"]))
              for _ in range(ncols)]
     case["cols"] = [draw(_column(tier, n <= 12, form=f)) for f in forms]
     case["add_missing"] = draw(st.booleans())
@@ -179,13 +267,22 @@ def strategy(tier):
 
 
 # --------------------------------------------------------------------------
-# materialisation (deterministic; all values float32-representable)
+# materialisation (deterministic)
 def _f32(a):
   return np.asarray(a, np.float32).astype(np.float64)
 
 
+def _is_f32(x):
+  return float(np.float32(x)) == float(x)
+
+
+INT_RANGE = {"int32": (-2.0**31 + 1, 2.0**31 - 1), "uint8": (0.0, 255.0)}
+
+
 def _values(col, n):
+  """float64 array of the numbers in the column (before dtype spelling)."""
   d = col["data"]
+  raw = col.get("dtype") == "f64raw"
   if d["kind"] == "explicit":
     v = np.resize(_f32(d["values"]), n)
   else:
@@ -210,9 +307,20 @@ def _values(col, n):
       v = np.round(rs.normal(size=n) * k) / 4.0 * sc
     elif kind == "constant":
       v = np.full(n, rs.normal() * sc)
+    elif kind == "offset":
+      # spread << magnitude: a large constant plus a small grid (adjacent
+      # float32 values for base 1e6 / step 0.0625; below float32 resolution
+      # for the other combinations, which only "f64raw" columns keep apart).
+      base = rs.choice([1e6, 1.6e7, -2.5e8, 1e6 + 1.0 / 3.0])
+      step = rs.choice([1e-3, 0.0625, 1.0 / 3.0, 1.0])
+      v = base + rs.randint(0, 3 * k + 2, size=n) * step
     else:
       raise ValueError(kind)
-    v = _f32(v)
+    if not raw:
+      v = _f32(v)
+  if col.get("dtype") in INT_RANGE:
+    lo, hi = INT_RANGE[col["dtype"]]
+    v = np.clip(np.round(v), lo, hi)
   if col["order"] == "sorted":
     v = np.sort(v)
   elif col["order"] == "reversed":
@@ -220,42 +328,42 @@ def _values(col, n):
   return v
 
 
-def _clip_value(spec, v):
+def _clip_value(spec, v, raw=False):
+  if spec["rel"] == "abs":
+    return float(spec["v"])
   u = np.unique(v)
   lo, hi = float(u[0]), float(u[-1])
   if spec["rel"] == "q":
     return float(u[int(round(spec["q"] * (len(u) - 1)))])
   width = hi - lo if hi > lo else max(1.0, abs(lo))
-  return float(_f32(lo + spec["t"] * width))
+  if hi > lo and spec["t"] in (0.0, 1.0):
+    return lo if spec["t"] == 0.0 else hi    # exactly on the data extreme
+  x = lo + spec["t"] * width
+  return float(x) if raw else float(_f32(x))
 
 
-def _weights(case):
-  w = case["weights"]
-  if w is None:
+def _spell(x, how, lo=None, hi=None):
+  """The scalar x (python float) in the requested spelling, where that spelling
+  denotes the same number; the python float otherwise."""
+  if x is None:
     return None
-  rs = np.random.RandomState(w["seed"])
-  n = case["n"]
-  kind = w["kind"]
-  if kind == "ones":
-    return np.ones(n)
-  if kind == "uniform":
-    return rs.uniform(0.1, 2.0, size=n)
-  if kind == "ints":
-    return rs.randint(1, 6, size=n).astype(np.float64)
-  if kind == "skewed":
-    return np.exp(rs.normal(size=n) * 4.0)
-  if kind == "dominant":
-    a = rs.uniform(1e-3, 1.0, size=n)
-    a[rs.randint(n)] = 1e6
-    return a
-  raise ValueError(kind)
+  if how == "int" and x == round(x) and abs(x) < 2.0**31 and (
+      lo is None or lo <= x <= hi):
+    return int(x)
+  if how == "np32" and _is_f32(x):
+    return np.float32(x)
+  if how == "np64":
+    return np.float64(x)
+  return float(x)
 
 
 def _resolve(col, n, keep_nonempty=True):
-  """Concrete (values array as passed, default_value, clip_min, clip_max)."""
+  """Concrete (array as passed, its float64 values, default_value, clip_min,
+  clip_max, dtype label)."""
   v = _values(col, n)
-  cmin = _clip_value(col["clip_min"], v) if col["clip_min"] else None
-  cmax = _clip_value(col["clip_max"], v) if col["clip_max"] else None
+  raw = col.get("dtype") == "f64raw"
+  cmin = _clip_value(col["clip_min"], v, raw) if col["clip_min"] else None
+  cmax = _clip_value(col["clip_max"], v, raw) if col["clip_max"] else None
   if cmin is not None and cmax is not None:
     if cmin > cmax:
       cmin, cmax = cmax, cmin
@@ -267,6 +375,10 @@ def _resolve(col, n, keep_nonempty=True):
     default = float(v[col["default"]["pick"] % n])
     if keep_nonempty and np.all(v == default):
       dm = "absent"      # would leave no data at all: out of domain
+  elif dm == "zero":
+    default = -0.0 if col["default"]["neg"] else 0.0
+    if keep_nonempty and np.all(v == 0.0):
+      dm = "absent"
   if dm == "absent":
     default = -1.0 if not np.any(v == -1.0) else float(
         _f32(np.min(v) - 1.0 - abs(np.min(v))))
@@ -274,14 +386,33 @@ def _resolve(col, n, keep_nonempty=True):
   dtype = col["dtype"]
   if dtype == "int" and not integral:
     dtype = "f64"
-  if dtype == "int":
-    arr = v.astype(np.int64)
-    if default is not None and default == round(default):
-      default = int(default)
+  if dtype == "f32" and not GEN_F32_NARROW_UNIFORM and (
+      col["mode"] == "uniform"):
+    # candidate defect 2 (float32 data, clip bounds absent or np.float32: the
+    # library's np.linspace then runs in float32): when the keypoint step would
+    # be below 4 float32 ulps the column is spelled float64 instead.
+    d = _distinct(v, default, cmin, cmax)
+    if d.size and (d[-1] - d[0]) / (col["num_keypoints"] - 1) < (
+        4.0 * float(np.spacing(np.float32(np.max(np.abs(d)))))):
+      dtype = "f64"
+  spell = col.get("spell") or {"clip": "float", "default": "float"}
+  if "spell" not in col and dtype == "int":
+    spell = {"clip": "float", "default": "int"}     # cases of older replays
+  if dtype in ("int", "int32", "uint8"):
+    arr = v.astype({"int": np.int64, "int32": np.int32,
+                    "uint8": np.uint8}[dtype])
   elif dtype == "f32":
     arr = v.astype(np.float32)
   else:
     arr = v.copy()
+  # NumPy refuses python ints outside the range of a uint8 array; such a bound
+  # or default is spelled as a float there.
+  lo, hi = (0.0, 255.0) if dtype == "uint8" else (None, None)
+  default = _spell(default, spell["default"], lo, hi)
+  cmin = _spell(cmin, spell["clip"], lo, hi)
+  cmax = _spell(cmax, spell["clip"], lo, hi)
+  if col.get("readonly"):
+    arr.setflags(write=False)
   return arr, v, default, cmin, cmax, dtype
 
 
@@ -289,10 +420,102 @@ def _distinct(v, default, cmin, cmax):
   """U: sorted distinct clipped non-default values plus the given bounds."""
   d = v if default is None else v[v != float(default)]
   if cmin is not None:
-    d = np.append(np.maximum(d, cmin), cmin)
+    d = np.append(np.maximum(d, float(cmin)), float(cmin))
   if cmax is not None:
-    d = np.append(np.minimum(d, cmax), cmax)
+    d = np.append(np.minimum(d, float(cmax)), float(cmax))
   return np.unique(d)
+
+
+def _clipped(v, cmin, cmax):
+  d = np.asarray(v, np.float64)
+  if cmin is not None:
+    d = np.maximum(d, float(cmin))
+  if cmax is not None:
+    d = np.minimum(d, float(cmax))
+  return d
+
+
+def _weights(case, columns=()):
+  """Example weights (or None) and, for 'dominant-int', the clipped value of
+  the first column that carries the dominant weight.
+
+  columns: (values float64, default, clip_min, clip_max) of every column whose
+  keypoints are computed with these weights.
+  """
+  w = case["weights"]
+  if w is None:
+    return None, None
+  rs = np.random.RandomState(w["seed"])
+  n = case["n"]
+  kind = w["kind"]
+  dominant_value = None
+  cols = []
+  for v, default, cmin, cmax in columns:
+    keep = np.ones(n, bool) if default is None else v != float(default)
+    cols.append((keep, _clipped(v, cmin, cmax), cmin, cmax))
+  if kind == "ones":
+    a = np.ones(n)
+  elif kind == "uniform":
+    a = rs.uniform(0.1, 2.0, size=n)
+  elif kind == "ints":
+    a = rs.randint(1, 6, size=n).astype(np.float64)
+  elif kind == "skewed":
+    a = np.exp(rs.normal(size=n) * 4.0)
+  elif kind == "dominant":
+    a = rs.uniform(1e-3, 1.0, size=n)
+    a[rs.randint(n)] = 1e6
+  elif kind == "dominant-int":
+    # Integer weights 1..5 and weight 1e6 on every example that shares the
+    # (clipped) value of one non-default example of the first column.
+    a = rs.randint(1, 6, size=n).astype(np.float64)
+    i0 = rs.randint(n)
+    if cols:
+      keep, cv = cols[0][0], cols[0][1]
+      idx = np.flatnonzero(keep)
+      i0 = int(idx[rs.randint(len(idx))])
+      dominant_value = float(cv[i0])
+      a[keep & (cv == cv[i0])] = 1e6
+    else:
+      a[i0] = 1e6
+  elif kind == "some-zero":
+    # Integer weights with 10-50% zeros; at least one positive weight on the
+    # data that remain after default removal.
+    a = rs.randint(1, 6, size=n).astype(np.float64)
+    a[rs.rand(n) < w.get("zero_frac", 0.3)] = 0.0
+    for keep, cv, cmin, cmax in cols:
+      if not np.any(a[keep] > 0):
+        a[np.flatnonzero(keep)[0]] = 1.0
+      if not GEN_ZERO_WEIGHT_LOW_RUN:
+        # candidate defect 1: keep a positive weight among the two lowest
+        # distinct clipped values (the clip_min sentinel always has weight 0).
+        u = _distinct(cv[keep], None, cmin, cmax)
+        if len(u) >= 2:
+          g = [keep & (cv == u[0]), keep & (cv == u[1])]
+          if a[g[0]].sum() == 0 and a[g[1]].sum() == 0:
+            a[g[0] if np.any(g[0]) else g[1]] = 1.0
+  else:
+    raise ValueError(kind)
+  dtype = w.get("dtype", "f64")
+  integral = bool(np.all(a == np.round(a)))
+  if dtype in ("int64", "int32") and not integral:
+    dtype = "f64"
+  if dtype == "int32" and a.sum() >= 2.0**31:
+    dtype = "int64"      # the per-value sums must fit the caller's own dtype
+  if dtype == "f32" and not GEN_F32_WEIGHTS_INEXACT:
+    # candidate defect 3: float32 only where the library's float32 sums are
+    # exact (integers, total < 2^24) or their worst-case rounding error
+    # (n ulps of the total) stays far below every single weight.
+    total = float(a.sum())
+    exact = integral and total < 2.0**24
+    roomy = bool(np.all(a > 0)) and (
+        4.0 * n * float(np.spacing(np.float32(total))) < float(a.min()))
+    if not (exact or roomy):
+      dtype = "f64"
+  a = a.astype({"f64": np.float64, "f32": np.float32, "int64": np.int64,
+                "int32": np.int32}[dtype])
+  if w.get("readonly"):
+    a.setflags(write=False)
+  return a, dominant_value
 
 
 # --------------------------------------------------------------------------
@@ -367,6 +590,13 @@ def _labels_for(out, col, u, n_kp, weighted, reduction, default, cmin, cmax,
                        "min" if cmin is not None else
                        "max" if cmax is not None else "none"),
             "dtype:" + dtype, "data:" + col["data"]["kind"])
+  for c in (cmin, cmax):
+    if c is not None:
+      out.label("clip-spelling:" + type(c).__name__)
+      if float(c) == 0.0:
+        out.label("clip:zero")
+  if col.get("readonly"):
+    out.label("array:read-only")
   if len(u) < 2:
     out.label("degenerate:<2-distinct(no strict/pwl claim)")
     if col["mode"] == "uniform":
@@ -379,6 +609,8 @@ def _labels_for(out, col, u, n_kp, weighted, reduction, default, cmin, cmax,
     out.label("distinct:=n")
   else:
     out.label("distinct:>n")
+  if len(u) >= 2 and not np.all(np.diff(u.astype(np.float32)) > 0):
+    out.label("distinct-values-closer-than-float32-resolution")
 
 
 def _prepare(out, case, col, with_weights=True):
@@ -393,15 +625,100 @@ def _prepare(out, case, col, with_weights=True):
   else:
     out.label("default:present" if np.any(v == float(default)) else
               "default:absent")
-  return arr, default, cmin, cmax, u
+    out.label("default-spelling:" + type(default).__name__)
+    if float(default) == 0.0:
+      out.label("default:zero")
+  return arr, default, cmin, cmax, u, v
+
+
+def _weight_labels(out, case, w):
+  if w is not None:
+    out.label("wkind:" + case["weights"]["kind"], "wdtype:" + w.dtype.name)
+    if np.any(w == 0):
+      out.label("weights:some-zero")
+
+
+# --------------------------------------------------------------------------
+# metamorphic relations on the weights (exact, see module docstring)
+def _metamorphic(out, case, col, arr, v, kw, w, kp, u, default, dominant_value,
+                 sig):
+  from tensorflow_lattice.python import premade_lib
+  n_kp, mode = col["num_keypoints"], col["mode"]
+  kp = np.asarray(kp, np.float64)
+  rs = np.random.RandomState(case["meta"]["seed"])
+  w64 = np.asarray(w, np.float64)
+  total = float(w64.sum())
+  # integer weights whose partial sums are exact in the dtype the library sums in
+  cap = 2.0**24 if w.dtype in (np.float32, np.int32) else 2.0**53
+  integer = bool(np.all(w64 == np.round(w64)))
+
+  def call(arr_, w_, red):
+    kw2 = dict(kw, weights=w_, weight_reduction=red)
+    return np.asarray(premade_lib.compute_keypoints(
+        arr_, n_kp, keypoints=mode, **kw2), np.float64)
+
+  def same(got, what, detail):
+    out.checks += 1
+    if not np.array_equal(got, kp):
+      out.violate("compute_keypoints: %s changes the keypoints (%s): %s -> %s"
+                  % (what, detail, kp[:8], got[:8]), kind="meta-" + what,
+                  **sig)
+
+  # (a) joint permutation of (values, weights)
+  if integer and total < cap:
+    p = rs.permutation(case["n"])
+    out.label("meta:permutation")
+    same(call(arr[p], w[p], case["reduction"]), "permutation",
+         "joint permutation of values and weights")
+  # (b) positive rescaling of all weights
+  c = case["meta"]["scale"]
+  if c in (3.0, 10.0) and not (integer and case["reduction"] == "sum" and
+                               total * c < cap):
+    c = 2.0
+  if w.dtype.kind == "i":
+    w2 = w64 * c
+  else:
+    w2 = w * w.dtype.type(c)
+  out.label("meta:rescale-pow2" if c not in (3.0, 10.0) else
+            "meta:rescale-integer")
+  same(call(arr, w2, case["reduction"]), "rescale", "all weights times %g" % c)
+  # (c) 'sum' of w == 'mean' of w * (multiplicity of the example's value);
+  # without clip bounds (the weight-0 bound sentinels enter the mean).
+  if integer and "clip_min" not in kw and "clip_max" not in kw:
+    keep = np.ones(len(v), bool) if default is None else v != float(default)
+    vals, inv, cnt = np.unique(v[keep], return_inverse=True,
+                               return_counts=True)
+    mult = np.ones(len(v))
+    mult[keep] = cnt[inv]
+    if total * float(cnt.max()) < 2.0**53:
+      # both sides with float64 weights: the same arithmetic on the same
+      # per-value weights (sum(w * m) / m == sum(w) exactly for integers).
+      out.label("meta:sum-vs-mean")
+      k_sum = kp if (case["reduction"] == "sum" and
+                     w.dtype == np.float64) else call(arr, w64, "sum")
+      k_mean = call(arr, w64 * mult, "mean")
+      out.checks += 1
+      if not np.array_equal(k_sum, k_mean):
+        out.violate("compute_keypoints: 'sum' reduction of w gives %s, 'mean' "
+                    "reduction of w * multiplicity gives %s" %
+                    (k_sum[:8], k_mean[:8]), kind="meta-sum-vs-mean", **sig)
+  # (d) a value carrying > 97% of the total weight is a keypoint
+  if dominant_value is not None and mode == "quantiles" and n_kp >= 3:
+    out.label("meta:dominant")
+    out.checks += 1
+    if not np.any(kp == dominant_value):
+      out.violate("compute_keypoints: value %r carries weight 1e6 per example "
+                  "(all others <= 5) but is not among the %d keypoints %s" %
+                  (dominant_value, n_kp, kp[:8]), kind="meta-dominant", **sig)
 
 
 # --------------------------------------------------------------------------
 def _run_compute(out, case):
   from tensorflow_lattice.python import premade_lib
   col = case["cols"][0]
-  arr, default, cmin, cmax, u = _prepare(out, case, col)
-  w = _weights(case)
+  arr, default, cmin, cmax, u, v = _prepare(out, case, col)
+  w, dominant_value = _weights(case, [(v, default, cmin, cmax)])
+  _weight_labels(out, case, w)
   kw = {}
   # Optional arguments are passed only when set, so the defaults are exercised.
   if cmin is not None:
@@ -410,22 +727,28 @@ def _run_compute(out, case):
     kw["clip_max"] = cmax
   if default is not None:
     kw["default_value"] = default
+  kw_w = dict(kw)
   if w is not None:
-    kw["weights"] = w
-    kw["weight_reduction"] = case["reduction"]
+    kw_w["weights"] = w
+    kw_w["weight_reduction"] = case["reduction"]
   kp = premade_lib.compute_keypoints(arr, col["num_keypoints"],
-                                     keypoints=col["mode"], **kw)
+                                     keypoints=col["mode"], **kw_w)
   out.info["distinct"] = int(len(u))
   out.info["keypoints"] = np.asarray(kp, np.float64).tolist()[:60]
+  sig = dict(target="compute", mode=col["mode"], weighted=w is not None)
   judge(out, kp, u, col["num_keypoints"], col["mode"], "compute_keypoints",
-        dict(target="compute", mode=col["mode"], weighted=w is not None))
+        sig)
+  if w is not None and "meta" in case and not out.violations:
+    _metamorphic(out, case, col, arr, v, kw, w, kp, u, default,
+                 dominant_value, sig)
   out.nontrivial = len(u) >= 2
 
 
 def _run_feature(out, case):
   from tensorflow_lattice.python import configs, premade_lib
-  w = _weights(case)
   feature_configs, features, expect = [], {}, {}
+  weighted_cols = []
+  untouched = {}
   for i, col in enumerate(case["cols"]):
     name = "f%d" % i
     form = col["form"]
@@ -435,25 +758,40 @@ def _run_feature(out, case):
       feature_configs.append(configs.FeatureConfig(name=name, num_buckets=3))
       out.label("feature:categorical")
       continue
+    if form == "nodata":
+      # A config whose feature is not in `features`: nothing is computed for
+      # it and it keeps its keypoint mode.
+      feature_configs.append(configs.FeatureConfig(
+          name=name, pwl_calibration_num_keypoints=col["num_keypoints"],
+          pwl_calibration_input_keypoints=col["mode"]))
+      untouched[name] = col["mode"]
+      out.label("feature:config-without-data")
+      continue
     if form in ("explicit", "missing"):
       arr = _resolve(col, case["n"])[0]
     else:
-      arr, default, cmin, cmax, u = _prepare(out, case, col)
+      arr, default, cmin, cmax, u, v = _prepare(out, case, col)
     features[name] = arr
     if form == "explicit":
       given = [float(x) for x in np.unique(_f32(arr))[:5]]
       if len(given) < 2:
         given = given + [given[0] + 1.0]
+      as_array = bool((col.get("spell") or {}).get("explicit_array"))
       feature_configs.append(configs.FeatureConfig(
-          name=name, pwl_calibration_input_keypoints=given,
+          name=name,
+          pwl_calibration_input_keypoints=(np.array(given) if as_array
+                                           else given),
           pwl_calibration_num_keypoints=len(given)))
       expect[name] = ("explicit", given)
-      out.label("feature:explicit")
+      out.label("feature:explicit",
+                "explicit-keypoints:" + ("ndarray" if as_array else "list"))
     elif form == "missing":
       # No config: the documented fallback is the default FeatureConfig
       # (10 keypoints, 'quantiles', no clipping, no default value).
-      u = _distinct(np.asarray(arr, np.float64), None, None, None)
+      v = np.asarray(arr, np.float64)
+      u = _distinct(v, None, None, None)
       expect[name] = ("computed", u, 10, "quantiles")
+      weighted_cols.append((v, None, None, None))
       out.label("feature:no-config")
     else:
       kw = {}
@@ -467,7 +805,10 @@ def _run_feature(out, case):
           name=name, pwl_calibration_num_keypoints=col["num_keypoints"],
           pwl_calibration_input_keypoints=col["mode"], **kw))
       expect[name] = ("computed", u, col["num_keypoints"], col["mode"])
+      weighted_cols.append((v, default, cmin, cmax))
       out.label("feature:computed")
+  w, _ = _weights(case, weighted_cols)
+  _weight_labels(out, case, w)
   kw = {}
   if w is not None:
     kw = {"weights": w, "weight_reduction": case["reduction"]}
@@ -483,6 +824,15 @@ def _run_feature(out, case):
   by_name = {}
   for fc in feature_configs:
     by_name.setdefault(fc.name, fc)
+  for name in sorted(untouched):
+    out.checks += 1
+    now = by_name[name].pwl_calibration_input_keypoints
+    if not (isinstance(now, str) and now == untouched[name]) or name in got:
+      out.violate("config %s has no data in `features` but its keypoints "
+                  "became %r (was %r)" % (
+                      name, by_name[name].pwl_calibration_input_keypoints,
+                      untouched[name]), kind="config-without-data",
+                  target="feature")
   n_missing = sum(1 for c in case["cols"] if c["form"] == "missing")
   out.checks += 1
   want_len = n_before + (n_missing if case["add_missing"] else 0)
@@ -543,14 +893,21 @@ def _run_label(out, case):
   from tensorflow_lattice.python import premade_lib
   col = case["cols"][0]
   string = case["labels"] == "string"
-  arr, _, cmin, cmax, u = _prepare(out, case, col, with_weights=not string)
-  w = _weights(case)
+  arr, _, cmin, cmax, u, v = _prepare(out, case, col, with_weights=not string)
+  w, _ = _weights(case, [] if string else [(v, None, cmin, cmax)])
+  _weight_labels(out, case, w)
   out.label("label:" + case["model"], "labels:" + case["labels"])
   explicit = None
   if col["form"] == "explicit":
     explicit = [float(x) for x in np.linspace(-1.0, 1.0, col["num_keypoints"])]
-    out.label("label:explicit")
-  mc = _model_config(case, col, cmin, cmax, explicit or col["mode"])
+    as_array = bool((col.get("spell") or {}).get("explicit_array"))
+    out.label("label:explicit",
+              "explicit-keypoints:" + ("ndarray" if as_array else "list"))
+  if explicit is None:
+    init = col["mode"]
+  else:
+    init = np.array(explicit) if as_array else explicit
+  mc = _model_config(case, col, cmin, cmax, init)
   labels = arr
   if string:
     # Documented: string labels stand for the classes 0 .. n_classes-1 and
